@@ -215,16 +215,16 @@ structure JointData (E : P K × P K × P K → Prop) (e : Env K) (pt : Nat → P
   hcs : c * c + σ * σ = 1
   hc : 0 < 1 + c
   hσ : 0 ≤ σ
-  hκ : κ = 0 ∨ κ = 1
+  hκ : 0 ≤ κ ∧ κ ≤ 1
   hrot : eT pt (k + 1) = (eT pt k).smul c + (perp (eT pt k)).smul (ε * σ)
   tabs : τ = |jtau pt k|
   loNext : ∀ y, ((1 - ε * y) * (if nsAt e pt (k + 1) then -jtau pt k else 0)
       + (1 + ε * y) * (if psAt e pt (k + 1) then jtau pt k else 0)) / 2 = τ * ((1 + y) - κ * (1 - y)) / 2
   hiPrev : ∀ y, ((1 - ε * y) * (if nsAt e pt (k + 1) then jtau pt k else 0)
       + (1 + ε * y) * (if psAt e pt (k + 1) then -jtau pt k else 0)) / 2 = -(τ * ((1 + y) - κ * (1 - y)) / 2)
-  tri : κ = 0 → ∀ q, InTri q (pt (k + 1) - (perp (eT pt k)).smul (ε * e.hwFw),
+  tri : κ < 1 → ∀ q, InTri q (pt (k + 1) - (perp (eT pt k)).smul (ε * e.hwFw) + (eT pt k).smul (κ * τ * e.hwFw),
       pt (k + 1) + (perp (eT pt k)).smul (ε * e.hwFw) - (eT pt k).smul (τ * e.hwFw),
-      pt (k + 1) - (perp (eT pt (k + 1))).smul (ε * e.hwFw)) → Cov E q
+      pt (k + 1) - (perp (eT pt (k + 1))).smul (ε * e.hwFw) - (eT pt (k + 1)).smul (κ * τ * e.hwFw)) → Cov E q
 
 /-- `JointData` from the closed form of the join, the unit tangents and the emitted join triangle -/
 theorem joint_data_of {e : Env K} {pt : Nat → P K} {o : Out K} (k : Nat)
@@ -265,13 +265,16 @@ theorem joint_data_of {e : Env K} {pt : Nat → P K} {o : Out K} (k : Nat)
       have ht := j1 hps' hnone
       rw [J.negPrev, J.sPosPrev, J.negNext] at ht
       refine ⟨_, ht, ?_⟩
-      have e1 : pt (k + 1) - (perp (eT pt k)).smul (1 * e.hwFw) = pt (k + 1) - (perp (eT pt k)).smul e.hwFw := by
-        rw [one_mul]
+      have e1 : pt (k + 1) - (perp (eT pt k)).smul (1 * e.hwFw) + (eT pt k).smul ((if false = true then 1 else 0) * jtau pt k * e.hwFw)
+          = pt (k + 1) - (perp (eT pt k)).smul e.hwFw := by
+        apply P.ext' <;> simp only [geom, Bool.false_eq_true, if_false] <;> ring
       have e2 : pt (k + 1) + (perp (eT pt k)).smul (1 * e.hwFw) - (eT pt k).smul (jtau pt k * e.hwFw)
           = pt (k + 1) + (perp (eT pt k)).smul e.hwFw + (eT pt k).smul (e.hwFw * (if true = true then -jtau pt k else 0)) := by
         apply P.ext' <;> simp only [geom, if_true] <;> ring
-      have e3 : pt (k + 1) - (perp (eT pt (k + 1))).smul (1 * e.hwFw) = pt (k + 1) - (perp (eT pt (k + 1))).smul e.hwFw := by
-        rw [one_mul]
+      have e3 : pt (k + 1) - (perp (eT pt (k + 1))).smul (1 * e.hwFw)
+            - (eT pt (k + 1)).smul ((if false = true then 1 else 0) * jtau pt k * e.hwFw)
+          = pt (k + 1) - (perp (eT pt (k + 1))).smul e.hwFw := by
+        apply P.ext' <;> simp only [geom, Bool.false_eq_true, if_false] <;> ring
       rw [e1, e2, e3] at hq
       exact hq
   · -- a right turn: the inside is the negative side
@@ -298,13 +301,16 @@ theorem joint_data_of {e : Env K} {pt : Nat → P K} {o : Out K} (k : Nat)
       have ht := j2 hns' hnone
       rw [J.sNegPrev, J.posPrev, J.posNext] at ht
       refine ⟨_, ht, ?_⟩
-      have e1 : pt (k + 1) - (perp (eT pt k)).smul (-1 * e.hwFw) = pt (k + 1) + (perp (eT pt k)).smul e.hwFw := by
-        apply P.ext' <;> simp only [geom] <;> ring
+      have e1 : pt (k + 1) - (perp (eT pt k)).smul (-1 * e.hwFw) + (eT pt k).smul ((if false = true then 1 else 0) * -jtau pt k * e.hwFw)
+          = pt (k + 1) + (perp (eT pt k)).smul e.hwFw := by
+        apply P.ext' <;> simp only [geom, Bool.false_eq_true, if_false] <;> ring
       have e2 : pt (k + 1) + (perp (eT pt k)).smul (-1 * e.hwFw) - (eT pt k).smul (-jtau pt k * e.hwFw)
           = pt (k + 1) - (perp (eT pt k)).smul e.hwFw + (eT pt k).smul (e.hwFw * (if true = true then jtau pt k else 0)) := by
         apply P.ext' <;> simp only [geom, if_true] <;> ring
-      have e3 : pt (k + 1) - (perp (eT pt (k + 1))).smul (-1 * e.hwFw) = pt (k + 1) + (perp (eT pt (k + 1))).smul e.hwFw := by
-        apply P.ext' <;> simp only [geom] <;> ring
+      have e3 : pt (k + 1) - (perp (eT pt (k + 1))).smul (-1 * e.hwFw)
+            - (eT pt (k + 1)).smul ((if false = true then 1 else 0) * -jtau pt k * e.hwFw)
+          = pt (k + 1) + (perp (eT pt (k + 1))).smul e.hwFw := by
+        apply P.ext' <;> simp only [geom, Bool.false_eq_true, if_false] <;> ring
       rw [e1, e2, e3] at hq
       exact inTri_swap12 hq
 
